@@ -15,6 +15,7 @@ import copy
 import functools
 import gc
 import hashlib
+import json
 import os
 import pickle
 import shutil
@@ -513,6 +514,104 @@ MODEL_OPS = ["run", "run_stateless", "run_forced", "run_forced", "call", "return
              "reset_run", "fit", "fit_named", "train"]
 
 
+
+_fp_uid = [0]
+
+
+def fresh_name(prefix):
+    _fp_uid[0] += 1
+    return f"{prefix}_{os.getpid()}_{_fp_uid[0]}"
+
+
+FRESH_SCRIPT = r"""
+import sys, pickle, json, warnings
+warnings.filterwarnings("ignore")
+import numpy as np
+import reservoirpy as rpy
+rpy.verbosity(0)
+with open(sys.argv[1], "rb") as f:
+    blob = pickle.load(f)
+m = pickle.loads(blob["model"])
+X, F = blob["X"], blob["F"]
+out = {}
+out["free"] = np.asarray(m.run(X)).tolist()
+m2 = pickle.loads(blob["model"])
+def by_type(m, t):
+    return [n.name for n in m.nodes if type(n).__name__ == t][0]
+out["forced"] = np.asarray(m2.run(X, forced_feedbacks=({by_type(m2, "Ridge"): F} if blob["plain_model"] else F))).tolist()
+m3 = pickle.loads(blob["model"])
+fs = ({by_type(m3, "Reservoir"): np.full((1, 6), 0.25)} if blob["plain_model"]
+      else {"reservoir": np.full((1, 6), 0.25), "readout": np.full((1, 1), 0.25)})
+out["from_state"] = np.asarray(m3.run(X, from_state=fs)).tolist()
+print(json.dumps(out))
+"""
+
+
+def check_fresh_process(ctx, g):
+    """a trained ESN node / feedback model saved with pickle and loaded in ANOTHER interpreter (where the original and its
+    registered names do not exist): free run, run with forced feedback and run from given states give what the original
+    gives here"""
+    import pickle
+    import subprocess
+    import tempfile
+    import reservoirpy.nodes as N
+    ob = "fresh_process"
+    kind = g.choice(["esn_fb", "esn_fb", "esn", "model_fb"])
+    c = {"kind": "fresh_process", "model": kind, "seed": g.randint(0, 10 ** 6)}
+    ctx.count(c, nontrivial=True, obligation=ob)
+    ctx.stat(f"fresh_process {kind}")
+    X, Y = data(c["seed"], 9, 2), data(c["seed"] + 1, 9, 1)
+    F = np.full((len(X), 1), 3.0)
+    res = N.Reservoir(6, seed=c["seed"] % 1000, name=fresh_name("fp_res"))
+    ro = N.Ridge(ridge=0.1, name=fresh_name("fp_ro"))
+    if kind.startswith("esn"):
+        m = N.ESN(reservoir=res, readout=ro, feedback=(kind == "esn_fb"), workers=1, name=fresh_name("fp_esn"))
+        m.fit(X, Y)
+        forced_arg = None
+        dims = {"reservoir": 6, "readout": 1}
+    else:
+        res <<= ro
+        m = res >> ro
+        m.fit(X, Y)
+        forced_arg = None
+        dims = {res.name: 6}
+    blob = pickle.dumps(m)
+
+    def by_type(mm, t):
+        return [n_.name for n_ in mm.nodes if type(n_).__name__ == t][0]
+    here = {"free": np.asarray(pickle.loads(blob).run(X))}
+    m2, m3 = pickle.loads(blob), pickle.loads(blob)
+    if kind == "model_fb":
+        here["forced"] = np.asarray(m2.run(X, forced_feedbacks={by_type(m2, "Ridge"): F}))
+        here["from_state"] = np.asarray(m3.run(X, from_state={by_type(m3, "Reservoir"): np.full((1, 6), 0.25)}))
+    else:
+        here["forced"] = np.asarray(m2.run(X, forced_feedbacks=F))
+        here["from_state"] = np.asarray(m3.run(X, from_state={n_: np.full((1, d_), 0.25) for n_, d_ in dims.items()}))
+    if kind in ("esn_fb", "model_fb") and np.allclose(here["free"], here["forced"]):
+        ctx.violation(f"{kind}: forcing the feedback makes no difference in this process either", c, obligation=ob)
+        return
+    with tempfile.NamedTemporaryFile(suffix=".pkl", delete=False) as f:
+        pickle.dump({"model": blob, "X": X, "F": F, "plain_model": kind == "model_fb"}, f)
+        path = f.name
+    try:
+        env = dict(os.environ, PYTHONPATH=common.REPO, TQDM_DISABLE="1")
+        r = subprocess.run(["/venv/bin/python", "-c", FRESH_SCRIPT, path], stdout=subprocess.PIPE, stderr=subprocess.PIPE, env=env, timeout=300)
+    finally:
+        os.remove(path)
+    if r.returncode != 0:
+        ctx.violation(f"{kind}: a pickled trained model cannot be loaded and run in another interpreter: {r.stderr.decode()[-300:]}", c, obligation=ob)
+        return
+    there = json.loads(r.stdout.decode().strip().splitlines()[-1])
+    for key in ("free", "forced", "from_state"):
+        a, b = here[key], np.asarray(there[key], dtype=float)
+        if a.shape != b.shape or not np.allclose(a, b, rtol=1e-9, atol=1e-12):
+            ctx.violation(f"{kind}: pickled here, loaded in another interpreter: the {key.replace('_', ' ')} run differs from the one of the "
+                          f"same pickle loaded here (max difference {float(np.max(np.abs(a - b))) if a.shape == b.shape else 'shape'})"
+                          + ("; it equals the free run there: the forced values were dropped" if key == "forced" and np.allclose(b, np.asarray(there["free"])) else ""),
+                          c, obligation=ob)
+            return
+
+
 def gen_model_case(g):
     k = g.choice(MODEL_KINDS)
     trained = g.chance(0.7)
@@ -927,7 +1026,15 @@ def run(ctx):
     cases += [gen_legacy_case(g) for _ in range(ctx.n(40, 500))]
     cases += [gen_names_case(g) for _ in range(ctx.n(60, 800))]
     check_cases(ctx, cases)
+    common.quiet()
+    for _ in range(ctx.n(3, 20)):
+        check_fresh_process(ctx, g)
 
 
 def replay(ctx, data_):
+    if data_["case"].get("kind") == "fresh_process":
+        common.quiet()
+        for _ in range(4):
+            check_fresh_process(ctx, ctx.gen)
+        return
     check_cases(ctx, [data_["case"]])
